@@ -9,6 +9,107 @@ ROOT = os.path.dirname(os.path.dirname(os.path.abspath(__file__)))
 sys.path.insert(0, ROOT)
 
 
+class Watchdog(BaseException):
+    """raised by the wall-clock watchdog; `lib_frame` is the innermost frame of the library under test that was executing (None when
+    the checker's own code was running)"""
+
+    def __init__(self, seconds, lib_frame, caller):
+        BaseException.__init__(self, "no result within %d s" % seconds)
+        self.seconds, self.lib_frame, self.caller = seconds, lib_frame, caller
+
+
+def _arm_watchdog(tier):
+    """a changed library may loop forever inside a call made by a stand-in: the check must still terminate with a verdict"""
+    import signal
+    secs = _watchdog_seconds(tier)
+    repo = os.path.realpath(os.environ.get("VERIF_REPO", "/repo"))
+
+    def handler(signum, frame):
+        st = traceback.extract_stack(frame)
+        last_checker = max([i for i, f in enumerate(st) if os.path.realpath(f.filename).startswith(ROOT + os.sep)] or [-1])
+        lib = [f for f in st[last_checker + 1:] if os.path.realpath(f.filename).startswith(repo + os.sep)]
+        signal.alarm(15)        # fire again should a bare `except:` on the way up swallow this one
+        raise Watchdog(secs, lib[-1] if lib else None, st[last_checker] if last_checker >= 0 else None)
+    try:
+        signal.signal(signal.SIGALRM, handler)
+        signal.alarm(secs)
+    except (ValueError, OSError):
+        pass
+
+
+def _hang_verdict(a, tier, hangfile, secs):
+    """the inner run was ended by faulthandler's watchdog thread (it fires even while the main thread sits in a C call that never
+    returns and holds the GIL): read the dumped stack of the main thread and decide whose code was running"""
+    import re
+    text = open(hangfile).read()
+    os.unlink(hangfile)
+    if os.environ.get("VERIF_DEBUG_HANG"):
+        sys.stderr.write(text)
+    blocks = re.split(r"\n(?=(?:Current thread|Thread) 0x)", "\n" + text)
+    repo = os.path.realpath(os.environ.get("VERIF_REPO", "/repo"))
+    lib, frames, first_checker, block = [], [], 0, text
+    for b in blocks:
+        if "vlib/cli.py" not in b:
+            continue                                                              # another thread, or a snapshot cut short
+        fr = re.findall(r'File "([^"]+)", line (\d+) in (\S+)', b)                # most recent call first
+        fc = next((i for i, f in enumerate(fr) if os.path.realpath(f[0]).startswith(ROOT + os.sep) and "/.venv/" not in f[0]), len(fr))
+        lb = [f for f in fr[:fc] if os.path.realpath(f[0]).startswith(repo + os.sep)]
+        if lb or not frames:
+            lib, frames, first_checker, block = lb, fr, fc, b
+        if lb:
+            break
+    mod = importlib.import_module("props." + a.pid)
+    from vlib.report import Report
+    rep = Report(a.pid, tier, a.seed, mod.LEVEL, "./check %s --tier %s" % (a.pid, tier))
+    if lib:
+        lf = lib[0]
+        cf = frames[first_checker] if first_checker < len(frames) else None
+        rep.violation("the library had not returned after %d s: executing %s:%s (%s), called from the check at %s" % (
+            secs, os.path.relpath(lf[0], repo), lf[1], lf[2], ("%s:%s" % (os.path.relpath(cf[0], ROOT), cf[1])) if cf else "?"),
+            "hang:%s" % lf[2], {"stack": block[-3000:]}, failing_input_found=False)
+        return rep.finish(crash=None)
+    print("CHECKER-CRASH property=%s (watchdog: the checker's own code exceeded %d s; not a violation)" % (a.pid, secs))
+    return rep.finish(crash="watchdog after %d s in checker code\n%s" % (secs, block[-1500:]))
+
+
+def _supervise(a, tier):
+    """run the check proper in a child process; if it has not finished `watchdog + 60` s later (the in-process SIGALRM watchdog cannot
+    fire while the main thread sits in a C call that never returns), ask it for stack dumps through faulthandler's C-level signal
+    handler, end it together with its workers, and turn the dumps into a verdict"""
+    import signal
+    import subprocess
+    import time
+    hang = os.path.join(ROOT, ".work", "hang_%d.txt" % os.getpid())
+    env = dict(os.environ, VERIF_INNER="1", VERIF_HANGFILE=hang)
+    p = subprocess.Popen([sys.executable, "-m", "vlib.cli"] + sys.argv[1:], env=env, cwd=ROOT, start_new_session=True)
+    secs = _watchdog_seconds(tier) + 60
+    try:
+        rc = p.wait(timeout=secs)
+    except subprocess.TimeoutExpired:
+        for _ in range(4):                      # several snapshots: a dump taken while frames change may be cut short
+            try:
+                os.kill(p.pid, signal.SIGUSR1)
+            except OSError:
+                break
+            time.sleep(0.7)
+        try:
+            os.killpg(p.pid, signal.SIGKILL)
+        except OSError:
+            pass
+        p.wait()
+        if os.path.exists(hang) and os.path.getsize(hang) > 0:
+            return _hang_verdict(a, tier, hang, secs)
+        print("CHECKER-CRASH property=%s (watchdog: no result within %d s and no stack dump; not a violation)" % (a.pid, secs))
+        return 3
+    if os.path.exists(hang):
+        os.unlink(hang)
+    return rc
+
+
+def _watchdog_seconds(tier):
+    return int(os.environ.get("VERIF_WATCHDOG_S", "0") or 0) or (1500 if tier == "quick" else 6 * 3600)
+
+
 def main():
     ap = argparse.ArgumentParser()
     ap.add_argument("pid")
@@ -23,12 +124,35 @@ def main():
         with open(a.replay) as f:
             doc = json.load(f)
         sys.exit(mod.replay(doc))
-    from vlib.report import Report
     tier = a.tier if a.tier in ("quick", "thorough") else "quick"
+    if os.environ.get("VERIF_INNER") != "1":
+        sys.exit(_supervise(a, tier))
+    hangfile = os.environ.get("VERIF_HANGFILE")
+    if hangfile:
+        import faulthandler
+        import signal as _signal
+        _hf = open(hangfile, "w")
+        faulthandler.register(_signal.SIGUSR1, file=_hf, all_threads=True)
+    from vlib.report import Report
     rep = Report(a.pid, tier, a.seed, mod.LEVEL, "./check %s --tier %s" % (a.pid, tier))
+    _arm_watchdog(tier)
     try:
         mod.run(rep, tier, a.seed)
         code = rep.finish()
+    except Watchdog as ex:
+        import signal
+        signal.alarm(0)
+        if ex.lib_frame is not None:
+            # the library under test was executing a call made by a stand-in and had not returned: it must return a value there
+            lf, cf = ex.lib_frame, ex.caller
+            repo = os.path.realpath(os.environ.get("VERIF_REPO", "/repo"))
+            rep.violation("the library had not returned after %d s: executing %s:%d (%s), called from the check at %s" % (
+                ex.seconds, os.path.relpath(lf.filename, repo), lf.lineno, lf.name, ("%s:%d" % (os.path.relpath(cf.filename, ROOT), cf.lineno)) if cf else "?"),
+                "hang:%s" % lf.name, {"stack": "".join(traceback.format_tb(ex.__traceback__))[-3000:]}, failing_input_found=False)
+            code = rep.finish(crash=None)
+        else:
+            print("CHECKER-CRASH property=%s (watchdog: the checker's own code exceeded %d s; not a violation)" % (a.pid, ex.seconds))
+            code = rep.finish(crash="watchdog after %d s in checker code" % ex.seconds)
     except Exception as ex:
         tb = traceback.format_exc()
         sys.stderr.write(tb)
